@@ -128,9 +128,9 @@ Definition sd_enc (st : sd_st) : N :=
   (match d_fsm st with WaitFirst => 0 | ParseSecond => 1 | WaitValid => 2 end)
   + 4 * (b2n (d_rcv st) + 2 * (d_w0 st + 2 ^ 32 * (d_w1 st + 2 ^ 32 * d_out st))).
 Definition sd_dec (m : N) : sd_st :=
-  let a := m / 4 in let b := a / 2 in let c := b / 2 ^ 32 in
-  {| d_fsm := match m mod 4 with 0 => WaitFirst | 1 => ParseSecond | _ => WaitValid end;
-     d_rcv := N.odd (a mod 2); d_w0 := b mod 2 ^ 32; d_w1 := c mod 2 ^ 32; d_out := c / 2 ^ 32 |}.
+  let a := N.shiftr m 2 in let b := N.shiftr a 1 in let c := N.shiftr b 32 in
+  {| d_fsm := match N.land m 3 with 0 => WaitFirst | 1 => ParseSecond | _ => WaitValid end;
+     d_rcv := N.odd a; d_w0 := N.land b (N.ones 32); d_w1 := N.land c (N.ones 32); d_out := N.shiftr c 32 |}.
 Definition sd_wf (st : sd_st) : Prop := d_w0 st < 2 ^ 32 /\ d_w1 st < 2 ^ 32.
 
 (* the model paired with the environment tracker, so that the lock-step obligation can be restricted to
@@ -144,7 +144,7 @@ Definition sde_step (fixed : bool) (s : sde_st) (i : N) : sde_st * N :=
 Definition sde_env (s : sde_st) (i : N) : bool :=
   match sd_env_next (snd s) i with Some _ => true | None => false end.
 Definition sde_enc (s : sde_st) : N := sd_est_code (snd s) + 4 * sd_enc (fst s).
-Definition sde_dec (m : N) : sde_st := (sd_dec (m / 4), sd_est_of (m mod 4)).
+Definition sde_dec (m : N) : sde_st := (sd_dec (N.shiftr m 2), sd_est_of (N.land m 3)).
 Definition sde_wf (s : sde_st) : Prop := sd_wf (fst s).
 
 (* input alphabet for the lock-step obligation: every combination of the control bits and valid masks
